@@ -14,7 +14,10 @@ TEXT = ("Must-pass-through (taint) analysis over every raw storage reader of the
         "Ok return (H1, H3 closed set); a parsed block is returned only on the equal edge of 'identifier recomputed "
         "from the parents == identifier it is stored under' (H2); keys of the object index derive from digest_bytes of "
         "the indexed slice or from the staged digest (H4); item names coming from storage listings are parsed without "
-        "unwrap/expect on fallible conversions (H5). Decides that no path interprets unverified bytes; does not decide "
+        "unwrap/expect on fallible conversions (H5); pack loading loops end by exhaustion or Err only (H6); in everything "
+        "reachable from reload / refresh / reload_until an unwrap/expect of a JSON shape conversion or map lookup is "
+        "dominated by the matching shape test on the same value, or the value is built locally (H7: a hash-consistent but "
+        "malformed stored item must be skipped or reported, not abort the thread). Decides that no path interprets unverified bytes; does not decide "
         "equality of the surviving state with the state of the intact subset (history-level).")
 TRUSTED = ["rustc nightly MIR and callee resolution", "sha2/hex compute SHA-256", "serde_json parses only what it is given",
            "backends return the stored bytes (C17)"]
@@ -308,6 +311,112 @@ def run(facts, res):
             res.instance("H5", "%s (called with listed names from %d site(s)): %d fallible conversion(s), none unwrapped" % (
                 m.path, len(sites), convs), m.loc())
     res.floor("H5", "call sites that parse listed item names", n5, 1)
+    check_content_unwraps(facts, res, cg)
+
+
+JSON_CONV = {"as_str": "is_string", "as_array": "is_array", "as_object": "is_object", "as_u64": "is_u64", "as_i64": "is_i64",
+             "as_f64": "is_f64", "as_bool": "is_boolean", "as_null": "is_null", "as_number": "is_number"}
+# frozen, one symbol wide: key -> reason
+H7_EXCEPTIONS = {
+    "datastorage::DataStorage::read_object|as_object":
+        "the value comes from read_raw_value: either a staged value (always built from a Map) or a pack slice recorded by the "
+        "re-indexer, which only records slices that start at a top-level `{` and end at its matching `}` (C03/K1b); serde_json "
+        "parses such a slice as an object or fails, and the failure is propagated with `?` before this line",
+}
+
+
+def check_content_unwraps(facts, res, cg):
+    """H7: in everything reachable from reload / refresh / reload_until, an unwrap/expect of a JSON shape conversion
+    (as_str, as_array, ...) or of a map lookup is justified by a dominating shape test on the same value, or the value is
+    built locally; otherwise a hash-consistent but malformed stored item aborts the open instead of being skipped"""
+    res.rule("H7", "no unwrap/expect on the shape of stored JSON content without a dominating shape test")
+    roots = [facts.body(n) for n in ("melda::Melda::reload", "melda::Melda::refresh", "melda::Melda::reload_until")]
+    members = {}
+    for r in roots:
+        if r is not None:
+            members.update({k: v for k, v in cg.reach(r).items() if v.in_repo()})
+    n = 0
+    for mp, m in sorted(members.items()):
+        if is_adapter_impl_or_module(m):
+            continue
+        du = du_of(m)
+        for bi, t in m.calls():
+            if t.callee is None or t.callee.name not in ("unwrap", "expect") or not t.args:
+                continue
+            x = du.operand_term(t.args[0], 16)
+            hops = 0
+            while hops < 30:
+                hops += 1
+                if x[0] in ("ref", "deref", "cast"):
+                    x = x[1]
+                elif x[0] == "var":
+                    x = x[3]
+                elif x[0] == "call" and callee_name(x) in ("ok_or_else", "ok_or", "as_ref", "map_err", "cloned", "copied") and x[2]:
+                    x = x[2][0]
+                else:
+                    break
+            if x[0] != "call" or x[4] is None:
+                continue
+            cn = callee_name(x)
+            owner = (x[4].path or "") + (x[4].self_ty or "")
+            if "serde_json" not in owner:
+                continue
+            if cn not in JSON_CONV and cn != "get":
+                continue
+            n += 1
+            subj = x[2][0] if x[2] else ("cut",)
+            sroots = {(y[0], y[1]) for y in walk(subj) if y[0] in ("var", "param", "upvar")}
+            local = _built_locally(subj)
+            ok = local
+            why = "value built in this function" if local else ""
+            if not ok:
+                for l in lits_of(m, bi, facts):
+                    if l.kind != "call" or not l.term[2]:
+                        continue
+                    ln = callee_name(l.term)
+                    lroots = {(y[0], y[1]) for y in walk(l.term[2][0]) if y[0] in ("var", "param", "upvar")}
+                    if cn in JSON_CONV and ln == JSON_CONV[cn] and l.truth is True and (lroots & sroots):
+                        ok, why = True, "dominated by %s() on the same value" % ln
+                    if cn == "get" and ln == "contains_key" and l.truth is True and (lroots & sroots) and len(l.term[2]) > 1 and len(x[2]) > 1 and \
+                            _consts(l.term[2][1]) == _consts(x[2][1]) and _consts(x[2][1]):
+                        ok, why = True, "dominated by contains_key on the same key"
+            owner_fn = facts.body(m.parent).path if m.kind == "closure" and m.parent and facts.body(m.parent) is not None else m.path
+            key = "%s|%s" % (owner_fn, cn)
+            if not ok and key in H7_EXCEPTIONS:
+                res.exception(res.prop + "|H7|" + key, H7_EXCEPTIONS[key])
+                ok, why = True, "frozen exception"
+            res.instance("H7", "%s: %s(..).%s() is justified: %s" % (m.path, cn, t.callee.name, why or "NO"), m.loc(t.line))
+            if not ok:
+                res.violation("H7", "%s|unchecked-content-unwrap:%s" % (owner_fn, cn),
+                              "%s (reachable from reload / refresh) calls %s() on the result of %s without a dominating shape test: a stored item whose "
+                              "bytes hash to its name but whose JSON has another shape aborts the calling thread instead of being skipped or reported" % (
+                                  m.path, t.callee.name, cn), m.loc(t.line))
+    res.floor("H7", "unwraps of JSON shape conversions on the reload / refresh paths", n, 3)
+
+
+def _consts(t):
+    return sorted(str(y[2]) for y in walk(t) if y[0] == "const")
+
+
+def _built_locally(t):
+    hops = 0
+    while hops < 30:
+        hops += 1
+        if t[0] in ("ref", "deref", "cast"):
+            t = t[1]
+        elif t[0] == "var":
+            t = t[3]
+        else:
+            break
+    if t[0] == "agg":
+        return True
+    if t[0] == "call" and callee_name(t) in ("from", "new", "to_value", "into", "default"):
+        return True
+    return False
+
+
+def is_adapter_impl_or_module(b):
+    return is_adapter_impl(b) or b.file.endswith("adapter.rs")
 
 
 def peel_conv(t):
